@@ -6,7 +6,7 @@ From Coq Require Import ZArith QArith Qround Qabs.
 Open Scope Q_scope.
 
 Definition int_max : Z := 2147483647.
-Definition tol : Q := 1 # 1000000000000.             (* 1E-12 *)
+Definition tol : Q := 4951760157141521 # 4951760157141521099596496896.   (* the double 1E-12 = 0x1.19799812dea11p-40, exactly *)
 
 Definition qfloor (x : Q) : Z := Qfloor x.
 Definition qceil (x : Q) : Z := Qceiling x.
